@@ -193,6 +193,8 @@ class Interp:
         self.opaque: Dict[str, str] = {}     # qualified method name -> atom name given to its (array) result
         self.events: List[Any] = []          # stores to attributes / attribute containers and returns, in evaluation order
         self._last_test = None
+        self.subs_sites: List[Any] = []
+        self.iterations: List[Any] = []      # every evaluated for / comprehension: dict(file, func, line, kind, node, source value)
 
     # ------------------------------------------------------------------ utils
     def where(self, env: Env, node) -> str:
@@ -430,8 +432,14 @@ class Interp:
     def ex_Raise(self, s, env):
         return
 
+    def record_iter(self, kind, node, iter_node, it, env, sinkinfo=None):
+        file, q, construct, line = self._loc(env, iter_node)
+        self.iterations.append({"file": file, "func": q, "line": line, "kind": kind, "node": node, "iter": construct,
+                                "source": it, "sink": sinkinfo})
+
     def ex_For(self, s, env: Env):
         it = self.ev(s.iter, env)
+        self.record_iter("for", s, s.iter, it, env)
         lid = next(self.loop_ids)
         elem = self.iter_elem(it, lid, env, s)
         self.assign(s.target, elem, env, s)
@@ -450,6 +458,7 @@ class Interp:
     # ------------------------------------------------------------ iteration
     def iter_elem(self, it, lid, env, node):
         """abstract element produced by iterating `it` once."""
+        it = unwrap_elem(it)
         if isinstance(it, Join):
             acc = None
             for a in it.alts:
@@ -582,6 +591,7 @@ class Interp:
         return self.getattr(base, n.attr, env, n)
 
     def getattr(self, base, attr, env, node):
+        base = unwrap_elem(base)
         if isinstance(base, Join):
             acc = None
             for a in base.alts:
@@ -801,6 +811,7 @@ class Interp:
         return self.subscript(base, n, env)
 
     def subscript(self, base, n, env):
+        base = unwrap_elem(base)
         if isinstance(base, Join):
             acc = None
             for a in base.alts:
@@ -842,6 +853,8 @@ class Interp:
         return Unknown("subscript")
 
     def array_slice(self, base, sl, i, env, n):
+        if isinstance(i, TupleV) and len(i.items) == 2 and all(isinstance(x, IdxV) for x in i.items):
+            return ("ARRELEM", base, i.items[0], i.items[1])
         return Unknown("array element")
 
     def slice_seq(self, s: SeqV, sl: ast.Slice, env):
@@ -871,6 +884,7 @@ class Interp:
         g = n.generators[0]
         e2 = env.fork()
         it = self.ev(g.iter, e2)
+        self.record_iter("dictcomp", n, g.iter, it, env)
         lid = next(self.loop_ids)
         elem = self.iter_elem(it, lid, e2, n)
         self.assign(g.target, elem, e2, n)
@@ -892,6 +906,7 @@ class Interp:
         g = n.generators[0]
         e2 = env.fork()
         it = self.ev(g.iter, e2)
+        self.record_iter(kind + "comp", n, g.iter, it, env)
         lid = next(self.loop_ids)
         elem = self.iter_elem(it, lid, e2, n)
         self.assign(g.target, elem, e2, n)
@@ -990,6 +1005,8 @@ class Interp:
         a0 = args[0] if args else None
         if name == "sorted":
             return self.do_sorted(a0, kwargs.get("key"), env, n)
+        if name in ("list", "sorted", "len", "set", "dict"):
+            a0 = unwrap_elem(a0)
         if name == "list":
             if a0 is None:
                 return SeqV(Layout(()), "empty")
@@ -1038,6 +1055,7 @@ class Interp:
         return Unknown("builtin " + name)
 
     def do_len(self, a0):
+        a0 = unwrap_elem(a0)
         if isinstance(a0, CollV):
             return SizeV.of(a0.role)
         if isinstance(a0, MapV):
@@ -1073,7 +1091,23 @@ class Interp:
             role = a0.keyrole if isinstance(a0, MapV) else "SENSOR"
             return SeqV(Layout((("SORT", role, keyname),)), "sym")
         if isinstance(a0, SeqV):
-            return a0
+            if a0.layout.ordered():
+                return a0
+            segs = a0.layout.segs
+            if len(segs) == 1 and segs[0][0] == "UNORD":
+                return SeqV(Layout((("SORT", segs[0][1], keyname),)), a0.elem)
+            return Unknown("sorted")
+        if isinstance(a0, tuple) and a0 and a0[0] == "UNORDLIST":
+            src, v = a0[1], a0[2]
+            role = src.keyrole if isinstance(src, MapV) else "SENSOR"
+            lay = Layout((("SORT", role, keyname),))
+            if isinstance(v, TupleV) and v.items and isinstance(v.items[0], SymV) and v.items[0].role == role:
+                # tuples whose first component is the (unique) key: natural tuple order == key order
+                tags = tuple(("key" if i == 0 else ("value", x)) for i, x in enumerate(v.items))
+                return SeqV(lay, ("TUPLE", tags))
+            if isinstance(v, SymV) and v.role == role:
+                return SeqV(lay, "sym")
+            return Unknown("sorted list of non-key tuples")
         return Unknown("sorted")
 
     def norm_key(self, key):
@@ -1141,7 +1175,10 @@ class Interp:
         return Unknown("np." + name)
 
     def call_bound(self, base, attr, args, kwargs, env, n):
-        if attr == "subs" and isinstance(base, tuple):
+        base = unwrap_elem(base)
+        args = [unwrap_elem(a) if attr in ("from_dict",) else a for a in args]
+        if attr == "subs":
+            self.subs_sites.append((base, args[0] if args else None, self.where(env, n)))
             return base
         if attr == "format" and isinstance(base, Const) and isinstance(base.value, str):
             return ("FSTR", tuple(args) + tuple(kwargs.values()))
@@ -1348,6 +1385,28 @@ def _jac_check(self, yields, env, n):
         if not (isinstance(tgt, tuple) and tgt and tgt[0] == "FSTR"):
             continue
         holes = [h for h in tgt[1] if isinstance(h, IdxV)]
+        names = [h for h in tgt[1] if isinstance(h, ElemV)]
+        if isinstance(expr, tuple) and expr and expr[0] == "ARRELEM" and len(holes) == 2:
+            ok = holes[0].loop == _loop_of(expr[2]) and holes[1].loop == _loop_of(expr[3]) and holes[0].offset == 0 and holes[1].offset == 0
+            self.oblige("LAY-COVIDX", env, n, f"covariance(i over {holes[0].layout}, j over {holes[1].layout}) = data[i, j]", ok,
+                        "covariance(i, j) is assigned data[j, i] / an offset entry" if not ok else "")
+            full = holes[0].loop != holes[1].loop
+            self.oblige("LAY-COVIDX", env, n, "rows and columns are enumerated by two nested loops (every entry of the declared, "
+                        "uninitialised matrix is assigned)", full,
+                        "only entries (i, i) are assigned: the off-diagonal entries of the declared (uninitialised) covariance matrix are never written")
+            continue
+        if len(names) == 1 and not holes:
+            src = expr
+            key = None
+            if isinstance(src, tuple) and src and src[0] == "MAPGET":
+                key = src[2]
+            elif isinstance(src, ElemV):
+                key = src
+            if key is not None:
+                ok = _loop_of(key) == names[0].loop
+                self.oblige("LAY-TGT", env, n, f"`double <name of {names[0].layout}>` = model[<same element>]", ok,
+                            "the declared local is named after one element but assigned another element's expression")
+            continue
         if isinstance(expr, tuple) and expr and expr[0] == "DIFF" and len(holes) == 2:
             num, den = expr[1], expr[2]
             out_loop = _loop_of(num[2]) if isinstance(num, tuple) and num and num[0] == "MAPGET" else None
@@ -1387,6 +1446,14 @@ def to_scalar(v):
             acc = acc + Scalar.const(c) * Scalar.atom("|" + (f"{r[0]}({r[1]})" if isinstance(r, tuple) else str(r)) + "|")
         return acc
     return None
+
+
+def unwrap_elem(v):
+    """an element of a sequence of (key, value...) tuples whose tag carries the abstract value behaves as that value"""
+    if isinstance(v, ElemV) and isinstance(v.elem, tuple) and len(v.elem) == 2 and v.elem[0] == "value" \
+            and isinstance(v.elem[1], (MapV, FamV, ObjV, NCls, NInst, SeqV, CollV)):
+        return v.elem[1]
+    return v
 
 
 def terminates(stmts):
